@@ -8,6 +8,16 @@ PROP = "C09"
 
 
 def _one(item):
+    try:
+        return _one_inner(item)
+    except Exception as e:  # noqa: BLE001 - unexpected behaviour of the code under test
+        tag, data = item
+        return {"steps": 0, "refused": 0, "vm_rejected": 0, "pickles": 1,
+                "viol": [(PROP, f"C09|unexpected-exception|{type(e).__name__}", f"{tag}: {type(e).__name__}: {e}",
+                          {"engine": "corpus", "kind": "full", "tag": tag, "bytes": data}, len(data))]}
+
+
+def _one_inner(item):
     import fickling.fickle as fk
 
     tag, data = item
